@@ -1153,3 +1153,6 @@ func repr(sb *strings.Builder, v V, depth int) {
 		fmt.Fprintf(sb, "<%T>", v)
 	}
 }
+
+// Call invokes a function value (used by harness-provided builtins such as callbacks).
+func (in *Interp) Call(f V, args []V) (V, *ErrV) { return in.call(f, args) }
